@@ -68,8 +68,14 @@ def shared_parse_same(text, outcome, term):
         return type(e).__name__ == outcome
 
 
+_NOISE = [0]
+
+
 def make_event(text):
     from mathy_core.parser import ExpressionParser
+    _NOISE[0] += 1
+    if _NOISE[0] % 200 == 1:
+        common.process_noise(_NOISE[0] // 200)
     import signal
     ev = {"buf": [ord(c) for c in text]}
 
